@@ -235,17 +235,20 @@ def follow (server : Nat → List Item) : Nat → List Item → List Ev
   | 0, .token _ :: _ => []                        -- out of fuel (never reached for fuel ≥ script length; proved)
   | fuel + 1, .token pos :: _ => follow server fuel (server pos)
 
+/-- what the caller sees from a parsed init body: the eagerly dispatched logs, then the pending batches, then the error
+that followed them / end of stream / whatever following the cursor yields -/
+def assemble (p : InitParse) (after : Nat → List Ev) : List Ev :=
+  p.evs ++ p.pending.map Ev.data ++
+    (match p.err with
+     | some e => [e]
+     | none => match p.cursor with
+       | none => [.fin]
+       | some pos => after pos)
+
 /-- open + iterate to the end over HTTP -/
 def iterate (brk : Nat → Bool) (initLogs : List Log) (steps : List Step) : List Ev :=
-  let p := parseInit (initBody brk initLogs steps)
-  let pend := p.pending.map Ev.data
-  match p.err with
-  | some e => p.evs ++ pend ++ [e]                 -- error met in the init body, after the pending batches
-  | none =>
-    match p.cursor with
-    | none => p.evs ++ pend ++ [.fin]              -- init body reached EOS: finished
-    | some pos =>
-        p.evs ++ pend ++ follow (serveContinuation brk steps) (steps.length + 1) (serveContinuation brk steps pos)
+  assemble (parseInit (initBody brk initLogs steps))
+    (fun pos => follow (serveContinuation brk steps) (steps.length + 1) (serveContinuation brk steps pos))
 
 /-- trailing batches of an exchange response are dispatched to `on_log` before `exchange()` returns -/
 def trailing : List Item → List Ev
